@@ -167,6 +167,27 @@ def real_write_sexp(kind, bl, comp, inl, fixedsize, postings):
     return "ok (blocks %s) %s" % (" ".join(block_sexp(kind, b) for b in blocks), ti_sexp(kind, ti, len(blocks)))
 
 
+def real_tib(kind, bl, comp, inl, fixedsize, postings):
+    """The term info as a reader gets it: W3TermInfo.from_bytes(ti.to_bytes())."""
+    from whoosh.codec.whoosh3 import W3TermInfo
+    err, st, ti = real_write(kind, bl, comp, inl, fixedsize, postings)
+    if err:
+        return "err " + err
+    if ti.is_inlined():
+        nblocks = 0
+    else:
+        data = st.open_file("p").read()
+        off, length = ti.extent()
+        nblocks = len(parse_blocks(data, off, length))
+    try:
+        ti2 = W3TermInfo.from_bytes(ti.to_bytes())
+    except Exception as e:  # noqa
+        return "err " + exc_name(e)
+    if ti2._df == 0:
+        ti2._df = 0
+    return ti_sexp(kind, ti2, nblocks)
+
+
 # ------------------------------------------------------------------------------------------------
 # real code: reader programs
 
@@ -731,7 +752,7 @@ def _compare_index(c, r, spec, viol, stats):
             # LineReader._parse_line splits `name=value` on every '=' (and lines on every tab)
             sig = "PlainTextCodec.LineReader._parse_line:equals-or-tab-inside-a-value"
         if len(viol) < 8:
-            viol.append((sig if sig.startswith("Plain") else sig + tag, exp, obs, desc))
+            viol.append((sig if sig.startswith(("Plain", "IndexReader.")) else sig + tag, exp, obs, desc))
 
     posts = {p[0]: p[1] for p in spec[0][1:]}
     docs = {int(d[0]): (int(d[1]), d[2]) for d in spec[1][1:]}
@@ -877,6 +898,42 @@ def _compare_index(c, r, spec, viol, stats):
                 if g[2:] != e[2:]:
                     bad("reader.vector:value", e[2:], g[2:], "vector value of %s in doc %d" % (g[0], dn))
                     break
+            # vector_as(astype, docnum, field): the same data through the convenience method
+            shows = {"frequency": lambda x: "%d" % x,
+                     "positions": lambda x: lst(["%d" % p for p in x]),
+                     "characters": triples,
+                     "position_boosts": lambda x: lst(["(%d %s)" % (p, rat(b)) for p, b in x]),
+                     "character_boosts": lambda x: lst(["(%d %d %d %s)" % (p, s, e_, rat(b)) for p, s, e_, b in x]),
+                     "weight": rat}
+            for k, name in enumerate(["weight", "frequency", "positions", "characters", "position_boosts",
+                                      "character_boosts"]):
+                if name != "weight" and not vobj.supports(name):
+                    continue
+                want = [(e[0], e[1 + k]) for e in exp]
+                try:
+                    have = [(hexs(t.encode("utf-8")), shows[name](v)) for t, v in r.vector_as(name, dn, "f")]
+                except Exception as ex:  # noqa
+                    have = "exc:%s:%s" % (type(ex).__name__, ex)
+                if have != want:
+                    sig = "reader.vector_as:" + name
+                    if c["vfmt"] != c["fmt"] and name != "weight":
+                        sig = "IndexReader.vector_as:decodes-with-the-posting-format-not-the-vector-format"
+                    bad(sig, want[:6], have if isinstance(have, str) else have[:6],
+                        "vector_as(%r, %d, 'f'), posting format %s, vector format %s" % (name, dn, c["fmt"], c["vfmt"]))
+                    break
+    # all_terms(): every (field, term) of the index
+    want_terms = sorted([("f", bytes.fromhex(h)) for h in posts] + [("id", b"%d" % o) for o in sorted(orig.values())])
+    try:
+        have_terms = sorted((fn, bytes(t)) for fn, t in r.all_terms())
+    except Exception as ex:  # noqa
+        have_terms = "exc:%s:%s" % (type(ex).__name__, ex)
+    if have_terms != want_terms:
+        sig = "reader.all_terms:term-set"
+        if codec == "plain" and isinstance(have_terms, str) and "_find_root" in have_terms:
+            sig = "PlainTermsReader._iter_fields:_find_root-called-without-argument"
+        bad(sig, [(f, t.hex()) for f, t in want_terms[:12]],
+            have_terms if isinstance(have_terms, str) else [(f, t.hex()) for f, t in have_terms[:12]],
+            "all_terms() is not the set of indexed (field, term) pairs")
     # field lengths
     for odn in sorted(docs):
         flen = docs[odn][0] if c["scorable"] else 0
